@@ -429,6 +429,9 @@ struct Style {
     orders: Vec<i64>,
     /// no boxes and no rules in this list (characters, ligatures, kerns, glue, penalties, ...)
     flat: bool,
+    /// a few items of 9000pt each: legal one by one, their sum is beyond TeX's largest dimension (hpack adds
+    /// widths without a bound, TeX.2021.651); at most three, so that the sum stays a 32-bit number
+    wide: bool,
 }
 
 const CM_CHARS: &[char] = &['a', 'g', 'f', 'l', 'x', 'Q', 'T', 'j', '(', '.', 'W', 'p', 'i', '1'];
@@ -437,6 +440,10 @@ const SY_CHARS: &[char] = &['a', 'b', 'c', 'd', 'e', 'f'];
 impl<'a> Gen<'a> {
     fn style(&mut self) -> Style {
         let r = &mut self.rng;
+        if r.chance(1, 12) {
+            let b = 9000 * 65536;
+            return Style { dims: vec![0, b, b, b, -b], amounts: vec![0, 65536, -65536, 1 << 17], orders: vec![0, r.range(0, 3)], flat: true, wide: true };
+        }
         let scale: i32 = *r.pick(&[1, 1, 7, 100, 65536, 65536, 1 << 18, 655360]);
         let mut dims = vec![0];
         for _ in 0..4 {
@@ -461,7 +468,7 @@ impl<'a> Gen<'a> {
             orders.push(r.range(0, 3));
         }
         let flat = r.chance(1, 3);
-        Style { dims, amounts, orders, flat }
+        Style { dims, amounts, orders, flat, wide: false }
     }
 
     fn dim(&mut self, st: &Style) -> i32 {
@@ -473,7 +480,7 @@ impl<'a> Gen<'a> {
     }
 
     fn list(&mut self, st: &Style, depth: u32) -> Vec<ds::Horizontal> {
-        let len = self.rng.below(self.maxlen as u64 + 1) as usize;
+        let len = if st.wide { 2 + self.rng.below(2) as usize } else { self.rng.below(self.maxlen as u64 + 1) as usize };
         let mut v = Vec::with_capacity(len);
         // how glue-heavy this list is
         let glue_w = *self.rng.pick(&[2u64, 4, 6]);
@@ -481,6 +488,10 @@ impl<'a> Gen<'a> {
             let mut k = self.rng.below(12 + glue_w);
             if st.flat && (3..=5).contains(&k) {
                 k = self.rng.below(3);
+            }
+            if st.wide {
+                // kerns and glue carry the widths; characters would only add a little
+                k = *self.rng.pick(&[6u64, 6, 7, 12, 8]);
             }
             let e = match k {
                 0 => chr(*self.rng.pick(CM_CHARS), 0),
